@@ -223,7 +223,7 @@ func (c vmCmd) args() []string {
 	case vmFsetXX:
 		return []string{"FSET", c.key, c.id, "XX", c.fname, c.val}
 	case vmFset2:
-		return []string{"FSET", c.key, c.id, "f", c.val, "g", c.val2}
+		return []string{"FSET", c.key, c.id, "f", c.val, c.fname, c.val2}
 	case vmDel:
 		return []string{"DEL", c.key, c.id}
 	case vmPdel:
@@ -305,8 +305,9 @@ func (m *vmDB) apply(c vmCmd) (reply string, ok bool) {
 			old.fields = vmSetField(old.fields, "f", c.val)
 			n++
 		}
-		if vmGetField(old.fields, "g") != c.val2 {
-			old.fields = vmSetField(old.fields, "g", c.val2)
+		// the pairs apply one after the other (the second name may repeat the first)
+		if vmGetField(old.fields, c.fname) != c.val2 {
+			old.fields = vmSetField(old.fields, c.fname, c.val2)
 			n++
 		}
 		return vmInt(n), true
@@ -582,6 +583,7 @@ func vhModelCommand() vmCmd {
 		c.p = vchoose(len(vmPointArgs))
 	case vmFset2:
 		c.val = vmFieldVals[vchoose(3)]
+		c.fname = vmFieldNames[vchoose(2)] // "f" again, or "g"
 		c.val2 = vmFieldVals[vchoose(3)]
 	case vmSetString, vmSetXX:
 		c.val = []string{"w", `{"n":1}`}[vchoose(2)]
@@ -595,7 +597,7 @@ func vhModelCommand() vmCmd {
 	return c
 }
 
-//verif:cfg b_datasets=5(empty|point+field|deadline+string+field|JSON_string+field+deadline,2_collections|3_objects_2_collections) quick.b_commands=1 thorough.b_commands=2 b_operations=19(SET_point/point+z/BOUNDS/HASH/GeoJSON/string/FIELD/NX/XX/EX,FSET,FSET_XX,FSET_two_fields,DEL,PDEL,DROP,RENAME,RENAMENX,FLUSHDB,EXPIRE,PERSIST,JSET,JDEL) b_ids=one_symbolic_byte b_collections=a|b(|c_as_RENAME_target) b_reads_after=KEYS,TYPE,SCAN_IDS,GET_WITHFIELDS,TTL,EXISTS,FEXISTS,FGET,JGET ignorego=1 maxpaths=2000000
+//verif:cfg b_datasets=5(empty|point+field|deadline+string+field|JSON_string+field+deadline,2_collections|3_objects_2_collections) quick.b_commands=1 thorough.b_commands=2 b_operations=19(SET_point/point+z/BOUNDS/HASH/GeoJSON/string/FIELD/NX/XX/EX,FSET,FSET_XX,FSET_two_pairs(same_or_different_names),DEL,PDEL,DROP,RENAME,RENAMENX,FLUSHDB,EXPIRE,PERSIST,JSET,JDEL) b_ids=one_symbolic_byte b_collections=a|b(|c_as_RENAME_target) b_reads_after=KEYS,TYPE,SCAN_IDS,GET_WITHFIELDS,TTL,EXISTS,FEXISTS,FGET,JGET ignorego=1 maxpaths=2000000
 func VH_C01_model() {
 	s := vhModelServer()
 	m := &vmDB{}
